@@ -17,6 +17,7 @@
 import KmipModel.Model.SrvConn
 import KmipModel.Gen.CertSrvConn
 import KmipModel.Props.C09
+import KmipModel.Lemmas.LtsLemmas
 namespace Kmip.C08
 open Kmip.Lts Kmip.SrvConn
 
@@ -35,11 +36,6 @@ theorem srvconn_closed : closedUnder (sys current) coding Gen.certSrvConn = true
 theorem srvconn_safe : ∀ s, Reachable (sys current) s → bad current s = false :=
   safe_of_cert srvconn_closed srvconn_cert.2
 
-private theorem parts {s : State} (h : bad current s = false) :
-    crashed s = false ∧ (stuck current s && !waitsOnPipelined s) = false ∧ misordered s = false ∧
-    invalidBad s = false ∧ hookBad s = false := by
-  simpa [bad, Bool.or_eq_false_iff, and_assoc] using h
-
 /-! ### the named consequences -/
 
 /-- no Go run-time panic: no send on a closed channel, no close of a closed channel (tx, rx, the
@@ -47,7 +43,7 @@ private theorem parts {s : State} (h : bad current s = false) :
 theorem no_crash : ∀ s, Reachable (sys current) s →
     s.fault ≠ .sendOnClosed ∧ s.fault ≠ .closeOfClosed := by
   intro s hr
-  have h := (parts (srvconn_safe s hr)).1
+  have h := (bad_parts (srvconn_safe s hr)).1
   cases hf : s.fault <;> simp [crashed, Fault.is, Fault.toNat, hf] at h ⊢
 
 /-- keeps no goroutines, does not deadlock: when the client has gone or the connection context is
@@ -56,7 +52,7 @@ theorem no_crash : ∀ s, Reachable (sys current) s →
 theorem no_stuck : ∀ s, Reachable (sys current) s → stuck current s = true →
     waitsOnPipelined s = true := by
   intro s hr hs
-  have h := (parts (srvconn_safe s hr)).2.1
+  have h := (bad_parts (srvconn_safe s hr)).2.1
   rw [hs] at h
   simpa using h
 
@@ -77,7 +73,7 @@ theorem no_stuck_after_cancel : ∀ s, Reachable (sys current) s → s.ctxDone =
 theorem answers_in_order : ∀ s, Reachable (sys current) s →
     s.fault ≠ .order ∧ (idleLive s = true → s.fl = .zero) := by
   intro s hr
-  have h := (parts (srvconn_safe s hr)).2.2.1
+  have h := (bad_parts (srvconn_safe s hr)).2.2.1
   simp only [misordered, Bool.or_eq_false_iff, Bool.and_eq_false_iff] at h
   constructor
   · intro hf; simp [Fault.is, Fault.toNat, hf] at h
@@ -92,7 +88,7 @@ theorem invalid_message_answered_once : ∀ s, Reachable (sys current) s →
     s.fault ≠ .invalidTwice ∧ (s.invWr = true → s.invProd = true) ∧
     (s.invProd = true → s.m ≠ .handle ∧ s.m ≠ .handleSlow ∧ s.m ≠ .recvSel ∧ s.m ≠ .recvCheck) := by
   intro s hr
-  have h := (parts (srvconn_safe s hr)).2.2.2.1
+  have h := (bad_parts (srvconn_safe s hr)).2.2.2.1
   simp only [invalidBad, Bool.or_eq_false_iff, Bool.and_eq_false_iff] at h
   refine ⟨?_, ?_, ?_⟩
   · intro hf; simp [Fault.is, Fault.toNat, hf] at h
@@ -113,7 +109,7 @@ theorem conn_hooks_paired : ∀ s, Reachable (sys current) s →
     (s.m = .ended → s.termHook = s.hookOk) ∧
     (s.termHook = true → s.m ≠ .hook ∧ s.m ≠ .handle ∧ s.m ≠ .handleSlow ∧ s.m ≠ .recvSel) := by
   intro s hr
-  have h := (parts (srvconn_safe s hr)).2.2.2.2
+  have h := (bad_parts (srvconn_safe s hr)).2.2.2.2
   simp only [hookBad, Bool.or_eq_false_iff, Bool.and_eq_false_iff] at h
   refine ⟨?_, ?_, ?_, ?_⟩
   · intro hf; simp [Fault.is, Fault.toNat, hf] at h
